@@ -418,6 +418,9 @@ def write_evidence(pid, plan, tier, seed, results, n_obl, n_dis, solver_s, evals
             if len(samples) < 12:
                 samples.append({'function': j['function'], 'obligation': o['label'], 'path': o['path'],
                                 'status': o['status']})
+    for r in bounded_reports:
+        for smp in r.get('samples', [])[:3]:
+            samples.append({'bounded': r.get('name'), 'case': smp})
     b_evals = evals + sum(r.get('evaluations', 0) for r in bounded_reports)
     b_non = nontriv + sum(r.get('distinct_nontrivial', 0) for r in bounded_reports)
     cov = {
